@@ -327,6 +327,8 @@ def check(prop, tier, base_seed, runs, budget_s, workers, meta, batch=None, out=
             rule=meta["rule"],
             samples=agg["samples"][:3] or [dict(note="no non-trivial sample captured")],
             runs_requested=runs, runs_submitted=submitted,
+            seeds=dict(base_seed=int(base_seed), derivation="run i uses the first 8 bytes of sha256('<base>/<property>/<i>')",
+                       first=run_seed(base_seed, prop, 0), last=run_seed(base_seed, prop, max(0, submitted - 1))),
             runs_per_hour=int(agg["runs"] / explore_wall * 3600) if explore_wall > 0 else 0,
             workers=workers,
             virtual_seconds=round(agg["vtime"], 3),
